@@ -380,10 +380,8 @@ def r01b(chk, repo, lr) -> None:
         chk.require(err_name is not None, "R01b", lc, "Linter._lex_templated_file: result of lexer.lex is not unpacked into (segments, errors)", detail="lex result unpacked")
         if err_name is None:
             continue
-        normal_rets = [
-            r for r in _tuple_returns(lf)
-            if handler is None or not any(r is n for n in ast.walk(handler))
-        ]
+        in_handlers = {id(n) for t in ast.walk(lf) if isinstance(t, ast.Try) for h in t.handlers for n in ast.walk(h)}
+        normal_rets = [r for r in _tuple_returns(lf) if id(r) not in in_handlers]
         chk.count("R01b.linter_returns", len(normal_rets))
         for r in normal_rets:
             ok = False
